@@ -411,16 +411,26 @@ fn cmd_run(args: &[String]) -> i32 {
         samples.push(J::obj().set("run", J::Int(run as i128)).set("spec", spec.to_json()).set("event_log", J::Arr(r.log.iter().map(|l| J::s(l)).collect())).set("fingerprint", J::s(&format!("{:016x}", r.fingerprint))));
     }
 
-    // reach probes that must not be stuck at zero (self-assessment; exit 2, never a VIOLATION)
+    // Reach probes. Those that depend only on the harness (fault kinds actually fired, every op kind executed) must
+    // not be stuck at zero: that is a harness error (exit 2). Those that depend on how the code under test is
+    // structured (did a rejection happen, could fibres be walked, ...) are reported when stuck — an oracle that
+    // found nothing to apply to has decided nothing — but never change the exit status: a correct implementation
+    // with a different structure (say, a descending modulo mapping) must not be made to look like a failure.
+    let mut probes_at_zero: Vec<String> = Vec::new();
     if t.runs >= 100_000 && violations.is_empty() {
+        for k in ["fault_rng_err", "fault_rng_partial_err", "fault_rng_panic", "op_gen", "op_gen_range", "op_sample_single", "op_uniform_sample", "op_fill", "op_fill_vs_elementwise", "op_fibre_walk", "op_span_probe"] {
+            if agg.counters.get(k).copied().unwrap_or(0) == 0 {
+                harness_errors.push(format!("harness reach probe {} stuck at zero", k));
+            }
+        }
         for k in [
-            "probe_rejection_then_accept", "probe_stall_recovered", "probe_full_range", "probe_signed_range_spans_zero", "probe_result_eq_low", "probe_result_eq_high",
+            "fault_stall_repeat", "probe_rejection_then_accept", "probe_stall_recovered", "probe_full_range", "probe_signed_range_spans_zero", "probe_result_eq_low", "probe_result_eq_high",
             "probe_offset_carries_past_first_digit", "probe_err_propagated", "probe_err_surfaced_as_rand_panic", "probe_injected_panic_propagated", "probe_sampler_reused_after_panic",
-            "probe_zero_length_fill", "probe_gen_refines_history", "probe_fill_refines_history", "probe_slice_equals_elementwise", "probe_fibre_at_bound", "r3_clusters_checked", "probe_accepted_word_is_function", "probe_complete_fibres_counted", "fibre_walk_configs_compared", "probe_spans_measured", "span_probe_configs_compared",
-            "fault_rng_err", "fault_rng_partial_err", "fault_rng_panic", "fault_stall_repeat",
+            "probe_zero_length_fill", "probe_gen_refines_history", "probe_fill_refines_history", "probe_slice_equals_elementwise", "probe_fibre_at_bound", "r3_clusters_checked", "probe_accepted_word_is_function",
+            "probe_complete_fibres_counted", "fibre_walk_configs_compared", "probe_spans_measured", "span_probe_configs_compared",
         ] {
             if agg.counters.get(k).copied().unwrap_or(0) == 0 {
-                harness_errors.push(format!("reach probe {} stuck at zero", k));
+                probes_at_zero.push(k.to_string());
             }
         }
     }
@@ -489,6 +499,7 @@ fn cmd_run(args: &[String]) -> i32 {
         .set("samples", J::Arr(samples))
         .set("violations", J::Arr(violations.clone()))
         .set("harness_errors", J::Arr(harness_errors.iter().map(|s| J::s(s)).collect()))
+        .set("probes_at_zero", J::Arr(probes_at_zero.iter().map(|s| J::s(s)).collect()))
         .set("explore_wall_s", J::Float(t_explore))
         .set("sweep_wall_s", J::Float(t_sweep))
         .set("wall_s", J::Float(t0.elapsed().as_secs_f64()));
@@ -498,6 +509,9 @@ fn cmd_run(args: &[String]) -> i32 {
     }
     for h in &harness_errors {
         println!("HARNESS-ERROR {}", h);
+    }
+    for k in &probes_at_zero {
+        println!("NOTE structure-dependent probe {} is at zero: the corresponding oracle found nothing to apply to", k);
     }
     println!("DONE build={} runs={} calls={} draws={} states={} distinct_nontrivial={} failing_runs={} explore={:.1}s sweeps={:.1}s", BUILD, agg.runs, agg.calls, agg.draws, agg.states.len(), agg.distinct.len(), agg.failing.len(), t_explore, t_sweep);
     if !harness_errors.is_empty() {
